@@ -390,6 +390,10 @@ func (vc *VC) scriptLines(lines []string, tail string) string {
 		if ax := vc.memRangeAxiom(n, Term{stateSym(n) + "_0", vc.stateSort[n]}); ax != "" {
 			b.WriteString(ax + "\n")
 		}
+		if n == "Mem_ptr" {
+			// whatever a cell of the entry memory points to was allocated before entry
+			fmt.Fprintf(&b, "(assert (forall ((r Ref)) (! (< (root (select %s_0 r)) st_Salloc_0) :pattern ((select %s_0 r)))))\n", stateSym(n), stateSym(n))
+		}
 	}
 	for _, s := range vc.strOrder {
 		fmt.Fprintf(&b, "(declare-const %s Str)\n", vc.strLits[s].S)
